@@ -287,4 +287,38 @@ example : (runComponents exW (fun _ => true) false [0, 1, 2, 3] (Broker.seeded f
 example : (runComponents exW (fun _ => true) false [0, 1, 2, 3] (Broker.seeded fun _ => none)).inst 3
     = some (.resp 7) := by decide
 
+/-! ### skip recording off: what a new `Broker()` has (round 10) -/
+
+/-- with skip recording off (what a new `Broker()` has until somebody switches it on) NO deliberate skip is recorded,
+against anybody: whatever the graph, the order, the seed and the faults -/
+theorem no_skip_recorded_when_off (inG : Comp → Bool) (o : List Comp) (seed : Inst) :
+    ∀ e ∈ (runComponents w inG false o (Broker.seeded seed)).excLog, e.exc ≠ Exc.skip := by
+  suffices h : ∀ (o : List Comp) (b : Broker), (∀ e ∈ b.excLog, e.exc ≠ Exc.skip) →
+      ∀ e ∈ (runComponents w inG false o b).excLog, e.exc ≠ Exc.skip by
+    exact h o (Broker.seeded seed) (by simp [Broker.seeded])
+  intro o
+  induction o with
+  | nil => intro b hb; simpa [run_nil] using hb
+  | cons c o ih =>
+    intro b hb
+    rw [run_cons]
+    apply ih
+    intro e he
+    rw [step_excLog_eq, List.mem_append] at he
+    rcases he with he | he
+    · exact hb e he
+    · split at he
+      · cases hd : w.decl c with
+        | none => simp [hd] at he
+        | some d =>
+          simp only [hd, tag, List.mem_map] at he
+          obtain ⟨te, hte, rfl⟩ := he
+          exact process_noskip w c d b.inst te hte
+      · simp at he
+
+-- non-vacuity: a skipping plugin and a crashing one; with recording off only the crash is in the log
+example : ((runComponents ⟨fun c => if c < 2 then some ⟨.plugin, [], []⟩ else none, fun _ => true, fun _ => [], fun _ => [],
+    fun c _ => if c = 0 then .fault .skip else .fault (.crash 1), fun _ _ => .noResult⟩ (fun _ => true) false [0, 1]
+    (Broker.seeded fun _ => none)).excLog.map (·.exc)) = [.crash 1] := by decide
+
 end IV.Dr
